@@ -25,6 +25,7 @@ const (
 	_defaultFilePerm        = 0775
 	_evictionBannedFileName = "_eviction_banned"
 	_blobSizeFileName       = "_size"
+	_tmpFileSuffix          = "-tmp"
 )
 
 var _syncEvictionLatencyBuckets = tally.MustMakeExponentialDurationBuckets(100*time.Millisecond, 1.4, 15)
@@ -450,7 +451,7 @@ func (s *store) SetMetadata(key string, md metadata.Metadata, scope storelib.Blo
 	}
 	mdFilePath := s.sidecarFilePath(key, b.complete, md.GetSuffix())
 	// Use a tmp file to ensure atomicity.
-	tmpFilePath := mdFilePath + "-tmp"
+	tmpFilePath := mdFilePath + _tmpFileSuffix
 	tmpFile, err := os.OpenFile(tmpFilePath, os.O_RDWR|os.O_CREATE|os.O_TRUNC, _defaultFilePerm)
 	if err != nil {
 		return fmt.Errorf("create tmp file for md: %w", err)
